@@ -289,7 +289,7 @@ class UnionConverter(Converter[t.Any]):
                     # (e.g. a tuple which a dataclass would accept positionally): try the next one
                     pass
         # default to regular conversion (by the value's own type, keeping our custom handlers)
-        if isinstance(val, (str, bytes, int, bool, float, complex, type(None))):
+        if isinstance(val, (str, bytes, int, bool, float, complex, type(None))) and not any(True for _ in self.handlers):
             return into_data(val)
         return make_converter(t.cast(t.Type[t.Any], type(val)), self.handlers).into_data(val)
 
